@@ -45,8 +45,18 @@ Proof.
   cbn [level_range in_level kl]. lia.
 Qed.
 
+
 Lemma in_level_key : forall lv k, in_level lv k = in_level lv (mkKey (kl k) 0 0 0).
 Proof. intros lv k. reflexivity. Qed.
+
+Theorem resolution_spec : forall sn sd rn rd, 0 < sn -> 0 < sd -> 0 < rn -> 0 < rd ->
+  let L := res_level sn sd rn rd in
+  (0 <= L /\ sn * rd <= rn * sd * 2 ^ L /\ (forall L', 0 <= L' < L -> rn * sd * 2 ^ L' < sn * rd))
+  /\ (forall k, in_level (level_range (LvRes sn sd rn rd)) k = true <-> 0 <= kl k <= L).
+Proof.
+  intros sn sd rn rd H1 H2 H3 H4. split; [exact (res_level_spec sn sd rn rd H1 H2 H3 H4)|].
+  intros k. rewrite in_level_key. exact (resolution_levels sn sd rn rd (kl k) H1 H2 H3 H4).
+Qed.
 
 (* ---------- broken page references ---------- *)
 Theorem broken_reference : forall fuel t g ob lv h k st acc e,
@@ -259,3 +269,7 @@ Qed.
 
 Theorem sort_off_ascending : forall l, ascending (sort_off l).
 Proof. induction l as [|x xs IH]; cbn [sort_off fold_right]; [exact I | apply ins_off_asc; exact IH]. Qed.
+
+Theorem grouping_spec : forall (A : Type) (dec : list Z -> Z -> list A) file ns, Forall (node_in_file file) ns ->
+  fetch_and_decode dec file ns = flat_map (node_dec dec file) (sort_off ns) /\ ascending (sort_off ns).
+Proof. intros A dec file ns H. split; [exact (fetch_and_decode_correct dec file ns H) | exact (sort_off_ascending ns)]. Qed.
